@@ -19,6 +19,7 @@ import (
 	"encoding/pem"
 	"fmt"
 	"math/big"
+	"strings"
 	"time"
 
 	"github.com/youmark/pkcs8"
@@ -37,7 +38,41 @@ func c19PEM(typ string, der []byte) string {
 	return string(pem.EncodeToMemory(&pem.Block{Type: typ, Bytes: der}))
 }
 
-func c19GenKeys() ([]*c19Key, error) {
+// c19OldKey returns the key of that name from a pool generated earlier (PKCS#8 form), so that extending the pool
+// does not replace the material the corpus was written with
+func c19OldKey(old map[string]any, name string) crypto.Signer {
+	forms := obj(obj(obj(old["keys"])[name])["forms"])
+
+	block, _ := pem.Decode([]byte(getStr(forms, "pkcs8")))
+	if block == nil {
+		return nil
+	}
+
+	parsed, err := x509.ParsePKCS8PrivateKey(block.Bytes)
+	if err != nil {
+		return nil
+	}
+
+	signer, _ := parsed.(crypto.Signer)
+
+	return signer
+}
+
+func c19OldCert(old map[string]any, name string) *x509.Certificate {
+	block, _ := pem.Decode([]byte(getStr(obj(obj(old["certs"])[name]), "pem")))
+	if block == nil {
+		return nil
+	}
+
+	cert, err := x509.ParseCertificate(block.Bytes)
+	if err != nil {
+		return nil
+	}
+
+	return cert
+}
+
+func c19GenKeys(old map[string]any) ([]*c19Key, error) {
 	var keys []*c19Key
 
 	for _, bits := range []int{1024, 1536, 2048, 3072, 4096} {
@@ -46,39 +81,68 @@ func c19GenKeys() ([]*c19Key, error) {
 				continue
 			}
 
+			name := fmt.Sprintf("rsa%d_%d", bits, n)
+			if k := c19OldKey(old, name); k != nil {
+				keys = append(keys, &c19Key{name: name, kind: "rsa", bits: bits, priv: k})
+
+				continue
+			}
+
 			k, err := rsa.GenerateKey(rand.Reader, bits)
 			if err != nil {
 				return nil, err
 			}
 
-			keys = append(keys, &c19Key{name: fmt.Sprintf("rsa%d_%d", bits, n), kind: "rsa", bits: bits, priv: k})
+			keys = append(keys, &c19Key{name: name, kind: "rsa", bits: bits, priv: k})
 		}
+	}
+
+	ecKey := func(name string, curve elliptic.Curve) error {
+		if k := c19OldKey(old, name); k != nil {
+			keys = append(keys, &c19Key{name: name, kind: "ecdsa", bits: curve.Params().BitSize, priv: k})
+
+			return nil
+		}
+
+		k, err := ecdsa.GenerateKey(curve, rand.Reader)
+		if err != nil {
+			return err
+		}
+
+		keys = append(keys, &c19Key{name: name, kind: "ecdsa", bits: curve.Params().BitSize, priv: k})
+
+		return nil
 	}
 
 	for _, curve := range []elliptic.Curve{elliptic.P224(), elliptic.P256(), elliptic.P384(), elliptic.P521()} {
-		for n := 0; n < 2; n++ {
-			if n == 1 && curve.Params().BitSize != 256 {
+		for n := 0; n < 5; n++ {
+			if n >= 1 && curve.Params().BitSize != 256 {
 				continue
 			}
 
-			k, err := ecdsa.GenerateKey(curve, rand.Reader)
-			if err != nil {
+			if err := ecKey(fmt.Sprintf("ec%d_%d", curve.Params().BitSize, n), curve); err != nil {
 				return nil, err
 			}
-
-			keys = append(keys, &c19Key{
-				name: fmt.Sprintf("ec%d_%d", curve.Params().BitSize, n), kind: "ecdsa",
-				bits: curve.Params().BitSize, priv: k,
-			})
 		}
 	}
 
-	_, ed, err := ed25519.GenerateKey(rand.Reader)
-	if err != nil {
-		return nil, err
+	// keys of the authorities that certify each other in cycles of three and four, and of a renewed intermediate
+	for n := 0; n < 8; n++ {
+		if err := ecKey(fmt.Sprintf("ca_%d", n), elliptic.P256()); err != nil {
+			return nil, err
+		}
 	}
 
-	keys = append(keys, &c19Key{name: "ed25519_0", kind: "other", bits: 256, priv: ed})
+	if k := c19OldKey(old, "ed25519_0"); k != nil {
+		keys = append(keys, &c19Key{name: "ed25519_0", kind: "other", bits: 256, priv: k})
+	} else {
+		_, ed, err := ed25519.GenerateKey(rand.Reader)
+		if err != nil {
+			return nil, err
+		}
+
+		keys = append(keys, &c19Key{name: "ed25519_0", kind: "other", bits: 256, priv: ed})
+	}
 
 	return keys, nil
 }
@@ -146,7 +210,7 @@ func c19PubSKI(pub crypto.PublicKey) []byte {
 	return sum[:]
 }
 
-func c19GenCerts(keys map[string]*c19Key) ([]*c19Cert, error) {
+func c19GenCerts(keys map[string]*c19Key, old map[string]any) ([]*c19Cert, error) {
 	specs := []c19CertSpec{
 		// self-signed end entity certificates
 		{name: "ss_rsa2048", key: "rsa2048_0", subject: "ss-rsa2048", valid: true, digSig: true, ski: true},
@@ -170,11 +234,45 @@ func c19GenCerts(keys map[string]*c19Key) ([]*c19Cert, error) {
 		{name: "cross_a", key: "ec521_0", subject: "cross-a", signer: "cross_b_boot", valid: true, ca: true, ski: true},
 		{name: "cross_b", key: "rsa4096_0", subject: "cross-b", signer: "cross_a", valid: true, ca: true, ski: true},
 		{name: "leaf_cross", key: "ec256_0", subject: "leaf-cross", signer: "cross_a", valid: true, digSig: true, ski: true},
+		// renewal chains: up to four generations of one self-signed certificate (same subject, same key), linked
+		// by name (no key identifiers) and by key identifiers
+		{name: "ss_ec256_renewed2", key: "ec256_0", subject: "ss-ec256", valid: true, digSig: true},
+		{name: "ss_ec256_renewed3", key: "ec256_0", subject: "ss-ec256", valid: true, digSig: true},
+		{name: "ss_rsa2048_renewed2", key: "rsa2048_0", subject: "ss-rsa2048", valid: true, digSig: true, ski: true},
+		{name: "ss_rsa2048_renewed3", key: "rsa2048_0", subject: "ss-rsa2048", valid: true, digSig: true, ski: true},
+		// an authority in three generations
+		{name: "root_gen2", key: "ec384_0", subject: "root-ca", valid: true, ca: true, ski: true},
+		{name: "root_gen3", key: "ec384_0", subject: "root-ca", valid: true, ca: true, ski: true},
+		// three authorities certifying each other in a cycle (a <- c, b <- a, c <- b), and a leaf below a
+		{name: "c3_a", key: "ca_0", subject: "c3-a", signer: "c3_c_boot", valid: true, ca: true, ski: true},
+		{name: "c3_b", key: "ca_1", subject: "c3-b", signer: "c3_a", valid: true, ca: true, ski: true},
+		{name: "c3_c", key: "ca_2", subject: "c3-c", signer: "c3_b", valid: true, ca: true, ski: true},
+		{name: "leaf_c3", key: "ec256_2", subject: "leaf-c3", signer: "c3_a", valid: true, digSig: true, ski: true},
+		// four authorities in a cycle (a <- d, b <- a, c <- b, d <- c), and a leaf below a
+		{name: "c4_a", key: "ca_3", subject: "c4-a", signer: "c4_d_boot", valid: true, ca: true, ski: true},
+		{name: "c4_b", key: "ca_4", subject: "c4-b", signer: "c4_a", valid: true, ca: true, ski: true},
+		{name: "c4_c", key: "ca_5", subject: "c4-c", signer: "c4_b", valid: true, ca: true, ski: true},
+		{name: "c4_d", key: "ca_6", subject: "c4-d", signer: "c4_c", valid: true, ca: true, ski: true},
+		{name: "leaf_c4", key: "ec256_3", subject: "leaf-c4", signer: "c4_a", valid: true, digSig: true, ski: true},
+		// mixed: an intermediate below the two cross certified authorities, issued three times (same subject and
+		// key), and a leaf below it
+		{name: "mx_inter", key: "ca_7", subject: "mx-inter", signer: "cross_a", valid: true, ca: true, ski: true},
+		{name: "mx_inter_gen2", key: "ca_7", subject: "mx-inter", signer: "cross_a", valid: true, ca: true, ski: true},
+		{name: "mx_inter_gen3", key: "ca_7", subject: "mx-inter", signer: "cross_a", valid: true, ca: true, ski: true},
+		{name: "leaf_mx", key: "ec256_4", subject: "leaf-mx", signer: "mx_inter", valid: true, digSig: true, ski: true},
 	}
 
 	res := []*c19Cert{}
 	byName := map[string]*c19Cert{}
 	serial := int64(1000)
+
+	// serial numbers identify certificates in the answers of the harness: new ones continue behind the old ones
+	for _, v := range obj(old["certs"]) {
+		var n int64
+		if _, err := fmt.Sscan(getStr(obj(v), "serial"), &n); err == nil && n >= serial {
+			serial = n + 100
+		}
+	}
 
 	build := func(spec c19CertSpec, signerCert *x509.Certificate, signerKey crypto.Signer) (*x509.Certificate, error) {
 		serial++
@@ -227,17 +325,20 @@ func c19GenCerts(keys map[string]*c19Key) ([]*c19Cert, error) {
 		return x509.ParseCertificate(der)
 	}
 
-	// bootstrap for the cross certification: cross_b first exists as a self-signed certificate that signs cross_a,
-	// then cross_a signs the cross_b that ends up in the pool
-	boot, err := build(c19CertSpec{name: "cross_b_boot", key: "rsa4096_0", subject: "cross-b", valid: true, ca: true, ski: true},
-		nil, nil)
-	if err != nil {
-		return nil, err
+	specByName := map[string]c19CertSpec{}
+	for _, spec := range specs {
+		specByName[spec.name] = spec
 	}
 
-	byName["cross_b_boot"] = &c19Cert{cert: boot, spec: c19CertSpec{key: "rsa4096_0"}}
-
 	for _, spec := range specs {
+		if cert := c19OldCert(old, spec.name); cert != nil {
+			c := &c19Cert{spec: spec, cert: cert}
+			byName[spec.name] = c
+			res = append(res, c)
+
+			continue
+		}
+
 		var (
 			signerCert *x509.Certificate
 			signerKey  crypto.Signer
@@ -245,6 +346,25 @@ func c19GenCerts(keys map[string]*c19Key) ([]*c19Cert, error) {
 
 		if spec.signer != "" {
 			s, ok := byName[spec.signer]
+			if !ok && strings.HasSuffix(spec.signer, "_boot") {
+				// bootstrap of a certification cycle: the issuer first exists as a self-signed certificate with
+				// the subject, key and key identifier it will have; the certificate that ends up in the pool is
+				// issued later by the last member of the cycle
+				base, known := specByName[strings.TrimSuffix(spec.signer, "_boot")]
+				if !known {
+					return nil, fmt.Errorf("%s: unknown signer %s", spec.name, spec.signer)
+				}
+
+				base.signer = ""
+
+				boot, err := build(base, nil, nil)
+				if err != nil {
+					return nil, err
+				}
+
+				s, ok = &c19Cert{cert: boot, spec: base}, true
+			}
+
 			if !ok {
 				return nil, fmt.Errorf("%s: unknown signer %s", spec.name, spec.signer)
 			}
@@ -265,8 +385,11 @@ func c19GenCerts(keys map[string]*c19Key) ([]*c19Cert, error) {
 	return res, nil
 }
 
-func c19Pool() (any, error) {
-	keys, err := c19GenKeys()
+// c19Pool: {"extend": pool generated earlier} keeps the keys and certificates that exist already
+func c19Pool(c map[string]any) (any, error) {
+	old := obj(c["extend"])
+
+	keys, err := c19GenKeys(old)
 	if err != nil {
 		return nil, err
 	}
@@ -282,12 +405,17 @@ func c19Pool() (any, error) {
 			return nil, err
 		}
 
+		// the encrypted form is salted: keep the one that exists
+		if enc := getStr(obj(obj(obj(old["keys"])[k.name])["forms"]), "encrypted"); enc != "" {
+			forms["encrypted"] = enc
+		}
+
 		keyOut[k.name] = map[string]any{
 			"kind": k.kind, "bits": k.bits, "forms": forms, "kid": hex.EncodeToString(c19PubSKI(k.priv.Public())),
 		}
 	}
 
-	certs, err := c19GenCerts(byName)
+	certs, err := c19GenCerts(byName, old)
 	if err != nil {
 		return nil, err
 	}
